@@ -14,6 +14,5 @@ import (
 func init() {
 	overlayHooks = func() {
 		service.SimHook = kernel.HookSite
-		service.SimSync = kernel.SimSync
 	}
 }
